@@ -36,6 +36,51 @@ class Trim:
         self.ok = bool(self.buf_gc and self.trim_fn and self.flag and self.limit_field)
 
 
+def handout_semantics(w, S, R, T):
+    """Semantic form of the hand-out clause: the terminal's gc reads nothing of the terminal but the showing-screen flag and the
+    active buffer (may-read summary), so evaluating it for both flag values x both results of the buffer's gc (Some(drained) /
+    None) is exhaustive: it calls the buffer's gc exactly once on the active buffer in every case, the result carries the drained
+    lines when the primary screen shows, and nothing of them otherwise.  -> (True, n) | (False, what)"""
+    from rules import hinterp
+    g = T.term_gc
+    allowed = {R["active_buffer_type"], S.active_buffer}
+    extra = sorted({p[1] for p in w.E.summaries[g].R if p[0] == "arg1" and len(p) >= 2 and p[1] not in allowed})
+    if extra:
+        return False, "%s also reads %s" % (g, extra)
+    tfield = [f for f in w.facts.struct_fields(S.term_ty) if f["name"] == R["active_buffer_type"]][0]
+    tadt = tfield["ty"].get("adt")
+    variants = w.facts.enum_variants(tadt) if tadt in w.facts.adts else []
+    if sorted(variants) != ["Alternate", "Primary"]:
+        return False, "showing-screen flag is not the two-valued enum"
+    DR = ("sym", "DRAINED")
+    n = 0
+    for var in variants:
+        for res in (H.some(DR), H.NONE_V):
+            class GI(hinterp.HandlerInterp):
+                def call_fn(self, path, args):
+                    if path == T.buf_gc and args and args[0] == hinterp.BUF:
+                        self.events.append((path, list(args[1:]), "buffer"))
+                        return res
+                    return super().call_fn(path, args)
+            me = hinterp.terminal_obj(w, S, R, 4, 3, 0, 0)
+            me[2][R["active_buffer_type"]] = ("v", "%s::%s" % (tadt, var))
+            it = GI(w.facts)
+            try:
+                out = it.call_fn(g, [me])
+            except Exception as ex:
+                return False, "cannot evaluate %s: %r" % (g, ex)
+            n += 1
+            calls = [e for e in it.events if e[2] == "buffer"]
+            if [e[0] for e in calls] != [T.buf_gc]:
+                return False, "with the %s screen showing %s makes the buffer calls %s (exactly one call of the buffer's gc expected)" % (var.lower(), g, [e[0] for e in calls])
+            has = "DRAINED" in repr(out)
+            if var == "Primary" and res != H.NONE_V and not has:
+                return False, "with the primary screen showing the drained lines are not handed out"
+            if var == "Alternate" and has:
+                return False, "with the alternate screen showing the drained lines are handed out"
+    return True, n
+
+
 def gc_rules(ctx, w, S, R, rule_prefix="D2"):
     """The scrollback stream handed out is the primary buffer's drained prefix,
     and nothing while the alternate screen is active."""
@@ -57,6 +102,7 @@ def gc_rules(ctx, w, S, R, rule_prefix="D2"):
     # every point where the drained iterator flows into the result is guarded by 'not alternate'
     names = {x["discr"]: x["name"] for x in w.facts.adts.get("terminal::BufferType", {}).get("variants", [])}
     n = 0
+    sem = None
     for bl in sorted(b.normal_blocks()):
         for i, s in enumerate(b.blocks[bl]["stmts"]):
             if s["k"] != "assign":
@@ -75,6 +121,14 @@ def gc_rules(ctx, w, S, R, rule_prefix="D2"):
                     if c == ("discr", ("load", ("arg1", R["active_buffer_type"]))) and isinstance(v, int) and names.get(v) == "Primary":
                         guarded = True
                 n += 1
+                if not guarded:
+                    # the guard has a shape the matcher does not know (`!=`, a helper, a match): decide the clause by evaluation
+                    if sem is None:
+                        try:
+                            sem = handout_semantics(w, S, R, T)
+                        except Exception as ex:
+                            sem = (False, repr(ex))
+                    guarded = sem[0] is True
                 ctx.check(guarded, rule, "payload@%s" % shared.site_key(w, g, (bl, i)),
                           "%s hands out the drained lines without having established that the primary screen is active: lines scrolled off the alternate screen leak into Changes.scrollback" % g,
                           loc=w.stmt_loc(g, (bl, i)), sample={"guards": [(w.tstr(g, c), v) for c, v in gs]})
